@@ -325,7 +325,7 @@ func quadBudget(n int) float64 {
 // measure runs f under the step counter; a watchdog looks at the counters every few seconds and declares a
 // hang when the running call has used more than 50x its quadratic budget (logical criterion; the clock only
 // decides when the counters are looked at).
-func (sc *stepCounter) measure(n int, f func()) (steps int64, hang bool, wall time.Duration, err error) {
+func (sc *stepCounter) measure(n int, prev int64, f func()) (steps int64, hang bool, wall time.Duration, err error) {
 	if err = coverage.ClearCounters(); err != nil {
 		return
 	}
@@ -351,6 +351,12 @@ func (sc *stepCounter) measure(n int, f func()) (steps int64, hang bool, wall ti
 			if e == nil && float64(s) > stepHangTimes*quadBudget(n) {
 				return s, true, time.Since(t0), nil
 			}
+			// relative criterion for scaled families: the previous (half as large) member took `prev` steps; a
+			// quadratic family grows 4x per doubling, a cubic one 8x - a call that has already used 64x and is
+			// still running grows faster than any polynomial of degree 6
+			if e == nil && prev > 0 && s > 64*prev && s > 5e7 {
+				return s, true, time.Since(t0), nil
+			}
 		}
 	}
 }
@@ -369,6 +375,7 @@ func stepsWorker() {
 	}
 	out := json.NewEncoder(os.Stdout)
 	warmed := map[string]bool{}
+	prevSteps := map[string]int64{}
 	for _, t := range tasks {
 		res := stepResult{stepTask: t}
 		var call func()
@@ -401,8 +408,11 @@ func stepsWorker() {
 			}
 		}
 		res.Len = n
-		steps, hang, wall, err := sc.measure(n, call)
+		steps, hang, wall, err := sc.measure(n, prevSteps[t.Family], call)
 		res.Steps, res.Hang, res.WallMS = steps, hang, float64(wall)/1e6
+		if t.Family != "" && !hang {
+			prevSteps[t.Family] = steps
+		}
 		if err != nil {
 			res.Err = err.Error()
 		}
